@@ -139,7 +139,11 @@ func safeCall(inst instance, o OpCall) (res, pan, stack string) {
 		}
 	}()
 	if o.Op == "Tick" {
-		simrt.Sleep(10 * time.Millisecond)
+		d := 10 * time.Millisecond
+		if o.A > 0 {
+			d = time.Duration(o.A) // a nap to a drawn instant (nanoseconds)
+		}
+		simrt.Sleep(d)
 		return "", "", ""
 	}
 	if strings.HasPrefix(o.Op, "auto:") {
@@ -332,7 +336,12 @@ func (w *ContWork) Post(out *RunOut) {
 	}
 	if w.Mode == "c02" && out.End == simrt.EndOK && h.ObsDone {
 		w.checkConservation(out, h)
-		w.checkLinearizable(out, h)
+		if w.Type == "cache" {
+			w.checkCacheConservation(out, h)
+		}
+		if !(w.Type == "cache" && w.Cfg&cacheJanitor != 0) {
+			w.checkLinearizable(out, h)
+		}
 	}
 }
 
@@ -444,6 +453,139 @@ func (w *ContWork) checkConservation(out *RunOut, h *contHistory) {
 	out.Violations = append(out.Violations, Violation{Class: "oracle", Identity: "c02:conservation:" + w.Type,
 		Detail: fmt.Sprintf("elements are not conserved: initial content %v plus the elements put in differ from the elements taken out plus the final content; lost %v, handed out more often than put in %v\n  %s",
 			start, lost, dup, strings.Join(out.History, "\n  "))})
+}
+
+// checkCacheConservation is the clause "no element is lost" for the expiring cache, decided on the
+// concurrent history itself (no reference execution, hence also with the cleanup goroutine running):
+// if a store of key k was acknowledged, every other call that can change k (a store or Delete of k,
+// Flush) had returned before that store was invoked, and the entry is surely still live when the
+// observer looks (it never expires, or its deadline - at least the store's invocation instant plus
+// its duration - lies after the observation), then the observer's Get(k) returns that value.
+// DeleteExpired and the cleanup goroutine may only remove expired entries, so they do not count as
+// calls that can change k.
+func (w *ContWork) checkCacheConservation(out *RunOut, h *contHistory) {
+	type cacheLike interface {
+		render(b int) string
+		life(b int, def time.Duration) (time.Duration, bool)
+	}
+	ref, ok := w.newInst(serialCfg(w.Type, w.Cfg) &^ cachePreAged).(cacheLike)
+	if !ok {
+		return
+	}
+	def := time.Duration(0)
+	if w.Cfg&cacheTimed != 0 {
+		def = cacheDefaultLife
+	}
+	type store struct {
+		key      int
+		val      string
+		inv, ret uint64
+		at       int64
+		forever  bool
+		deadline int64
+		what     string
+		self     int // index of the store's own entry in touches
+	}
+	type touch struct {
+		key      int // -1: every key
+		inv, ret uint64
+	}
+	var stores []store
+	var touches []touch
+	nk := len(cacheKeys)
+	norm := func(k int) int { return ((k % nk) + nk) % nk }
+	// the initial content: buildCache stores Init[i] with value 900+i and duration code i+2 at instant 0
+	for i, v := range w.Init {
+		d, finite := ref.life(i+2, def)
+		touches = append(touches, touch{key: norm(v)})
+		stores = append(stores, store{key: norm(v), val: ref.render(900 + i), forever: !finite, deadline: int64(d), what: fmt.Sprintf("initial content #%d", i), self: len(touches) - 1})
+	}
+	// the pre-history (calls made one after the other before the concurrent calls start) may have
+	// changed any key it names; its own stores are not tracked
+	for _, o := range w.Pre {
+		switch o.Op {
+		case "Set", "Update", "MapToCache", "SetDefault", "Delete":
+			touches = append(touches, touch{key: norm(o.A)})
+		case "Flush":
+			touches = append(touches, touch{key: -1})
+		default:
+			if strings.HasPrefix(o.Op, "auto:") {
+				return
+			}
+		}
+	}
+	for _, c := range h.Calls {
+		if !c.Done || c.Panic != "" {
+			return
+		}
+		switch c.Op.Op {
+		case "Set", "Update", "MapToCache", "SetDefault":
+			touches = append(touches, touch{key: norm(c.Op.A), inv: c.Inv, ret: c.Ret})
+			if c.Res != "ok" {
+				continue
+			}
+			code := c.Op.B
+			d, finite := ref.life(code, def)
+			if c.Op.Op == "SetDefault" {
+				d, finite = def, def > 0
+			}
+			stores = append(stores, store{key: norm(c.Op.A), val: ref.render(c.Op.B), inv: c.Inv, ret: c.Ret, at: c.At, forever: !finite,
+				deadline: c.At + int64(d), what: fmt.Sprintf("t%d#%d %s", c.Task, c.Idx, c.Op), self: len(touches) - 1})
+		case "Delete":
+			touches = append(touches, touch{key: norm(c.Op.A), inv: c.Inv, ret: c.Ret})
+		case "Flush":
+			touches = append(touches, touch{key: -1, inv: c.Inv, ret: c.Ret})
+		default:
+			if strings.HasPrefix(c.Op.Op, "auto:") {
+				return // a discovered method: unknown effect
+			}
+		}
+	}
+	got := map[int]string{}
+	for _, o := range h.Observed {
+		for k := 0; k < nk; k++ {
+			if pre := "Get" + ck(k) + "="; strings.HasPrefix(o, pre) {
+				got[k] = strings.TrimPrefix(o, pre)
+			}
+		}
+	}
+	checked := 0
+	for _, s := range stores {
+		last := true
+		for ti, t := range touches {
+			if ti == s.self || (t.key != s.key && t.key != -1) {
+				continue
+			}
+			if !(t.ret < s.inv) {
+				last = false // may take effect after the store (two initial stores of one key: left alone)
+			}
+		}
+		if !last {
+			continue
+		}
+		if !s.forever && !(s.deadline > h.ObsAt) {
+			continue
+		}
+		g, ok := got[s.key]
+		if !ok {
+			continue
+		}
+		checked++
+		if want := s.val + ",ok,false"; g != want {
+			out.Violations = append(out.Violations, Violation{Class: "oracle", Identity: "c02:conservation:cache",
+				Detail: fmt.Sprintf("an acknowledged store was lost: %s stored %s=%s (%s), every other call that can change that key had returned before it was invoked, yet the observer's Get/IsExpired at %s reads %q, want %q\n  %s",
+					s.what, ck(s.key), s.val, lifeStr(s.forever, s.deadline), time.Duration(h.ObsAt), g, want, strings.Join(out.History, "\n  "))})
+			return
+		}
+	}
+	out.Count("cache_conservation_checked", checked)
+}
+
+func lifeStr(forever bool, deadline int64) string {
+	if forever {
+		return "never expires"
+	}
+	return "live until at least " + time.Duration(deadline).String()
 }
 
 // interleavings enumerates all merges of the task sequences (per-task order preserved), up to limit.
@@ -896,7 +1038,14 @@ func insertTicks(r *simrt.Rand, w *ContWork, n int) {
 		t := r.Intn(len(w.Tasks))
 		pos := r.Intn(len(w.Tasks[t]) + 1)
 		calls := append([]OpCall(nil), w.Tasks[t][:pos]...)
-		calls = append(calls, OpCall{Op: "Tick"})
+		tick := OpCall{Op: "Tick"}
+		if w.Type == "cache" && w.Cfg&cacheJanitor != 0 && r.Intn(2) == 0 {
+			// with the cleanup goroutine running: also naps that end exactly at (and 1 ns around) the
+			// instants at which entries stored "now" expire, so that a call and a sweep meet
+			naps := []time.Duration{cacheShortLife, cacheShortLife + 1, cacheShortLife - 1, cacheDefaultLife, cacheCleanup - cachePreAge, 3 * time.Millisecond}
+			tick.A = int(naps[r.Intn(len(naps))])
+		}
+		calls = append(calls, tick)
 		calls = append(calls, w.Tasks[t][pos:]...)
 		w.Tasks[t] = calls
 	}
@@ -910,9 +1059,12 @@ func genC02(r *simrt.Rand, tier string, idx uint64) Workload {
 	if ad.name != "cache" {
 		w.Cfg = r.Intn(ad.ncfg)
 	} else {
-		// never the janitor (its purges are not calls of the program); half of the cache programs are
-		// timed: entries with finite expirations, simulated time passing, expired-but-unpurged entries
-		w.Cfg = []int{0, 0, cacheTimed, cacheTimed | cachePreAged}[r.Intn(4)]
+		// half of the cache programs are timed: entries with finite expirations, simulated time passing,
+		// expired-but-unpurged entries. One in five also runs the cleanup goroutine: its purges are not
+		// calls of the program, so such a history is not compared with sequential executions (which have
+		// no janitor); it is judged by the conservation oracle alone - an acknowledged store that is
+		// surely the last word on its key and surely still live must be there afterwards.
+		w.Cfg = []int{0, 0, cacheTimed, cacheTimed | cachePreAged, cacheTimed | cacheJanitor | []int{0, cachePreAged}[r.Intn(2)]}[r.Intn(5)]
 		w.Cfg |= []int{0, 0, 1, 2, 3}[r.Intn(5)] << 3 // value type: int, string, []byte, struct
 	}
 	// alphabet: 2-3 values, collisions on purpose (thorough: sometimes 4-5)
@@ -935,6 +1087,17 @@ func genC02(r *simrt.Rand, tier string, idx uint64) Workload {
 	}
 	if ad.name == "bstree" && r.Intn(2) == 0 {
 		w.Init = bushyKeys(r)
+	}
+	if ad.name == "cache" && w.Cfg&cacheJanitor != 0 && r.Intn(2) == 0 {
+		// three distinct keys, so that the initial content is one short-lived, one everlasting and one
+		// default-lived entry (buildCache picks the duration by position) when the sweeps begin
+		alpha = 3
+		w.Alpha = alpha
+		w.Init = []int{0, 1, 2}
+		for i := 2; i > 0; i-- {
+			j := r.Intn(i + 1)
+			w.Init[i], w.Init[j] = w.Init[j], w.Init[i]
+		}
 	}
 	if r.Intn(3) == 0 {
 		w.Pre = genPre(r, ad, alpha)
